@@ -198,8 +198,8 @@ func registerAll() {
 	}
 	propTable["C12"] = &PropSpec{
 		ID:          "C12",
-		Rules:       []string{"K1", "K2", "K3", "R6", "X1", "R1", "R3", "L9"},
-		Explanation: "the collision-limit rejection is control dependent on level == 0, on a comparison with maxCollisionLimitPerDigest and on errors.As(KeyNotFoundError) of Get with the same key parameter (so updates of existing keys are never refused), and no mutation, store or allocation precedes it on any path; every element kind (single element, inline group, external group) and both element-list kinds are handled by every family type switch or by an erroring default. Collision groups and element lists report their true entry counts (the limit counts entries through element.Count).",
+		Rules:       []string{"K1", "K2", "K3", "R6", "X1", "R1", "R3", "L9", "L21"},
+		Explanation: "the collision-limit rejection is control dependent on level == 0, on a comparison with maxCollisionLimitPerDigest and on errors.As(KeyNotFoundError) of Get with the same key parameter (so updates of existing keys are never refused), and no mutation, store or allocation precedes it on any path; every element kind (single element, inline group, external group) and both element-list kinds are handled by every family type switch or by an erroring default. Collision groups and element lists report their true entry counts (the limit counts entries through element.Count). Lists of colliding elements are written with fixed-width length heads: the length must be bounded wherever the list can be encoded (finding F9: inside an external collision group nothing bounds it).",
 		NotDecided:  "dictionary semantics under arbitrary digest assignments; correctness of spill/collapse transitions (value-dependent).",
 		Technique:   "control-dependence slices and backward reachability on go/ssa; type-switch exhaustiveness",
 	}
